@@ -22,7 +22,7 @@ COMPONENTS = {"real": ["pyjelly generic serializer (stream_frames, flat_/grouped
               "stub": ["byte channel (simkit.pipe)", "input iterator / output sink"]}
 ASSUMPTIONS = ["inputs and configurations are sampled, not enumerated",
                "first raw read delivers >=3 bytes (shorter first reads are C09's subject)"]
-PROBES = ["empty_sequences", "evictions", "zero_prefix_tables", "zero_datatype_tables", "quoted_depth2", "nondelimited",
+PROBES = ["empty_sequences", "deep_nesting_runs", "nesting_over_97", "evictions", "zero_prefix_tables", "zero_datatype_tables", "quoted_depth2", "nondelimited",
           "physical_GRAPHS", "physical_QUADS", "interleaved_runs"]
 SHRINK_LISTS = ["ops"]
 
@@ -72,6 +72,25 @@ def generate(rng, run, tier):
     plan = gen_plan(rng, run, tier)
     if rng.random() < 0.004 and plan["cfg"]["entry"] in ("frames_gen", "flat_file", "flat_frames"):
         plan["ops"] = []        # the empty sequence is a finite statement sequence too (C01 only)
+    elif rng.random() < 0.006:
+        # a quoted triple nested close to protobuf's limit of 100 nested messages (frame > row > statement > ...)
+        depth = rng.choice([60, 90, 95, 96, 97, 98, 99, 100, 101, 130])
+        cfg = plan["cfg"]
+        s, p, o = ("iri", "http://deep.example/s"), ("iri", "http://deep.example/p"), ("lit", "o", None, None)
+        q = (s, p, o)
+        slot = rng.choice([0, 2, 2])
+        for _ in range(depth):
+            q = (("triple", *q), p, o) if slot == 0 else (s, p, ("triple", *q))
+        if cfg["physical"] != "TRIPLES":
+            q = (*q, ("default",))
+        plan["ops"].append(["stmt", *T.to_json(q)])
+        if cfg.get("groups"):
+            cfg["groups"][-1] += 1
+        cfg["rdf_star"] = True
+        cfg["max_names"] = min(4096, cfg["max_names"] + 2)
+        if cfg["max_prefixes"]:
+            cfg["max_prefixes"] = min(4096, cfg["max_prefixes"] + 1)
+        plan["deep_nesting"] = depth
     return plan
 
 
@@ -219,14 +238,25 @@ def execute(plan, sim):
     probes(sim, plan, data)
     if any(T.term_depth(t) >= 2 for st in stmts for t in st):
         sim.count("quoted_depth2")
+    deep = plan.get("deep_nesting", 0)
+    if deep:
+        sim.count("deep_nesting_runs")
+        if deep >= 98:
+            sim.count("nesting_over_97")
     if serr is not None:
-        return [{"clause": "C01.serialize_raised", "sig": {"exc": type(serr).__name__},
-                 "msg": f"serializer raised {type(serr).__name__}: {serr}"}], None
+        sig = {"exc": type(serr).__name__}
+        if deep:
+            sig["nesting_over_97"] = deep >= 98
+        return [{"clause": "C01.serialize_raised", "sig": sig,
+                 "msg": f"serializer raised {type(serr).__name__}: {serr}" + (f" (quoted triples nested {deep} deep)" if deep else "")}], None
     if not stmts:
         sim.count("empty_sequences")
     if perr is not None:
-        return [{"clause": "C01.parse_raised", "sig": {"exc": type(perr).__name__, "empty_input": not stmts},
-                 "msg": f"parser raised {type(perr).__name__}: {perr}"}], None
+        sig = {"exc": type(perr).__name__, "empty_input": not stmts}
+        if deep:
+            sig["nesting_over_97"] = deep >= 98
+        return [{"clause": "C01.parse_raised", "sig": sig,
+                 "msg": f"parser raised {type(perr).__name__}: {perr}" + (f" (quoted triples nested {deep} deep)" if deep else "")}], None
     if cfg["physical"] == "TRIPLES" and plan["consumer"] != "flat":
         pass
     v = compare_seq("C01", expected, items)
